@@ -172,7 +172,9 @@ def run(db, chk):
             if chk.want("C02-F4"):
                 n_sc += minimax_rule(chk, uname, pf)
             if chk.want("C02-F5"):
-                n_sc += mstpipe.run_rule(db, chk, uname, None, "C02-F5")
+                # (the larger graphs of the thorough tier on the first instantiation only: the
+                #  resolver's code is the same template for every grid type)
+                n_sc += mstpipe.run_rule(db, chk, uname, None, "C02-F5", deep=(uname == UNITS[0]))
         for E in (1.0, 0.0, -2.5):
             for ca in sinks.CLASSES:
                 for cb in sinks.CLASSES:
@@ -212,5 +214,5 @@ def run(db, chk):
     if chk.tier == "thorough":
       chk.absorb(db, "C15", {"C15-K1", "C15-K4"}, "C02-F7", "the tree of basins is a MINIMUM spanning tree over the pass "
                "elevations (shared with C15-K1 / K4): a heavier tree spills depressions over a higher pass",
-               min_instances=100)
+               min_instances=100, tier="quick")
     chk.count_scenarios(n_sc, True)
